@@ -26,6 +26,7 @@ import (
 	"github.com/nspcc-dev/neofs-sdk-go/object"
 	oid "github.com/nspcc-dev/neofs-sdk-go/object/id"
 	"github.com/nspcc-dev/neofs-sdk-go/user"
+	"github.com/nspcc-dev/bbolt"
 	"go.uber.org/zap"
 )
 
@@ -93,7 +94,7 @@ type envOpts struct {
 }
 
 func buildShard(dir string, o envOpts) (*shardEnv, error) {
-	fst := fstree.New(fstree.WithPath(filepath.Join(dir, "fstree")))
+	fst := fstree.New(fstree.WithPath(filepath.Join(dir, "fstree")), fstree.WithNoSync(true))
 	var st common.Storage = fst
 	if o.blob != nil {
 		st = o.blob(fst)
@@ -110,11 +111,13 @@ func buildShard(dir string, o envOpts) (*shardEnv, error) {
 			meta.WithEpochState(ep),
 			meta.WithLogger(zap.NewNop()),
 			meta.WithMaxBatchDelay(time.Microsecond),
+			meta.WithBoltDBOptions(&bbolt.Options{NoSync: true, NoFreelistSync: true, Timeout: time.Second}),
 		),
 		shard.WithWriteCache(o.wc),
 		shard.WithWriteCacheOptions(
 			writecache.WithLogger(zap.NewNop()),
 			writecache.WithPath(filepath.Join(dir, "wcache")),
+			writecache.WithNoSync(true),
 		),
 		shard.WithBlobstor(st),
 		shard.WithGCRemoverSleepInterval(time.Hour), // GC passes are driven explicitly through the hook
@@ -148,7 +151,11 @@ func fatal(f string, a ...any) {
 }
 
 func tempDir() string {
-	d, err := os.MkdirTemp("", "verif-shard-")
+	base := ""
+	if st, err := os.Stat("/dev/shm"); err == nil && st.IsDir() && os.Getenv("TMPDIR") == "" {
+		base = "/dev/shm" // durability is not what these checks are about; tmpfs keeps them fast
+	}
+	d, err := os.MkdirTemp(base, "verif-shard-")
 	if err != nil {
 		fatal("mkdtemp: %v", err)
 	}
